@@ -70,3 +70,33 @@ package encrypted_leaseset
 //@     assert(els.Verify() == nil)
 //@   }
 //@ }
+
+// ---- C01 / C03: re-serialising an accepted EncryptedLeaseSet reproduces
+// exactly the bytes that were consumed (everything executed from the bodies).
+//@ option C01_C03_ReadEncryptedLeaseSet_T nocontract *
+//@ lemma C01_C03_ReadEncryptedLeaseSet_T(data []byte) {
+//@   els, rem, err := ReadEncryptedLeaseSet(data)
+//@   if err == nil {
+//@     b, e := (&els).Bytes()
+//@     assert(e == nil)
+//@     assert(len(rem) <= len(data) && seqeq(b, data[:len(data)-len(rem)]))
+//@   }
+//@ }
+
+// ---- C14 (the statement itself): a value the constructor returns without
+// error passes Validate(), serialises, and parses back with an empty remainder
+// to the same serialisation (no offline keys).
+//@ option C14_EncryptedCtorValidatesAndRoundTrips_T nocontract *
+//@ lemma C14_EncryptedCtorValidatesAndRoundTrips_T(sigType uint16, bpk []byte, published uint32, expires uint16, flags uint16, inner []byte, priv ed25519.PrivateKey) {
+//@   assume(len(priv) == 64)
+//@   els, err := NewEncryptedLeaseSet(sigType, bpk, published, expires, flags, nil, inner, priv)
+//@   if err == nil {
+//@     assert(els.Validate() == nil)
+//@     b, e := els.Bytes()
+//@     assert(e == nil)
+//@     back, rem, e2 := ReadEncryptedLeaseSet(b)
+//@     assert(e2 == nil && len(rem) == 0)
+//@     b2, e3 := (&back).Bytes()
+//@     assert(e3 == nil && seqeq(b2, b))
+//@   }
+//@ }
